@@ -5,6 +5,9 @@ import (
 	"strings"
 	"time"
 
+	"github.com/sdcio/cache/proto/cachepb"
+	"github.com/sdcio/data-server/pkg/cache"
+
 	"verifharness/internal/core"
 	"verifharness/internal/fixture"
 	"verifharness/internal/model"
@@ -103,7 +106,20 @@ var invalidProbes = []invalidProbe{
 func (c *probeCheck) RunCase(w *core.Worker, idx int, seed uint64, res *core.CaseResult) {
 	rng := core.NewRng(seed)
 	poolName := histPools[idx%4] // presence pool excluded: its C01 known finding would only end histories early
+	drift := false
+	choicePool := false
+	if c.id == "C09" && idx%5 == 4 {
+		// re-applying an intent whose choice case is overruled by another intent
+		poolName, choicePool = "base+choice", true
+	}
+	if c.id == "C03" && idx%5 == 4 {
+		choicePool = true
+		// choices (old case deleted through paths that are not in the tree) on a device that drops configuration on its
+		// own: the running store loses leaves behind the server's back
+		poolName, drift = "base+choice", true
+	}
 	c.h.pool = poolFor(poolName)
+	c.h.noOrphan = choicePool
 	run := c.h.start(rng, res, true, c.id == "C09")
 	run.ds.Dev.CaptureViews = false
 	defer run.close()
@@ -120,7 +136,33 @@ func (c *probeCheck) RunCase(w *core.Worker, idx int, seed uint64, res *core.Cas
 	nt1, nt2 := false, false
 	for s := 0; s < steps && !c.mustStop(res); s++ {
 		step := run.genStep(3)
+		if choicePool {
+			for i := range step {
+				if !step[i].Delete {
+					oneCasePerIntent(step[i].Vals)
+					if len(step[i].Vals) == 0 {
+						step[i].Vals = map[string]string{"/ch/other": "o1"}
+					}
+				}
+			}
+		}
 		res.Tracef("step %d: %s", s, stepString(step))
+		if drift && rng.Chance(1, 2) {
+			// the device drops some leaves and a sync removes them from the running store
+			cur, _ := fixture.DumpStore(run.ctx, c.h.env.Cache, run.ds.Name, cachepb.Store_CONFIG)
+			var dels [][]string
+			for _, k := range sortedKeys(cur) {
+				if strings.HasPrefix(k, "ch,") && rng.Chance(1, 3) {
+					dels = append(dels, strings.Split(k, ","))
+					delete(run.ds.Dev.Config, "/"+strings.ReplaceAll(k, ",", "/"))
+					res.Tracef("   drift: device dropped %s", k)
+				}
+			}
+			if len(dels) > 0 {
+				c.h.env.Cache.Modify(run.ctx, run.ds.Name, &cache.Opts{Store: cachepb.Store_CONFIG}, dels, nil)
+				res.Count("drift_deletes", len(dels))
+			}
+		}
 		switch c.id {
 		case "C03":
 			if rng.Chance(2, 3) {
@@ -317,6 +359,22 @@ func (c *probeCheck) cancelProbe(run *histRun, step []stepIntent, byTimeout bool
 			}
 		}
 		defer func() { run.ds.Dev.SetHook = nil }()
+	}
+	if byTimeout && how == "timeout" && run.rng.Chance(1, 2) {
+		// slow store: the timeout elapses while the transaction still writes its bookkeeping (the rollback must not
+		// run against half written stores); every second time with a timeout of zero
+		how = "timeout(slow store)"
+		if run.rng.Chance(1, 2) {
+			to = 0
+			how = "timeout(zero, slow store)"
+		}
+		run.fc.Before = func(cc fixture.CacheCall) error {
+			if cc.Method == "Modify" {
+				time.Sleep(30 * time.Millisecond)
+			}
+			return nil
+		}
+		defer func() { run.fc.Before = nil }()
 	}
 	if !byTimeout && run.rng.Chance(1, 4) {
 		// cancel, then the same request again under a new id, left to its timeout: the rollback timer of the cancelled
